@@ -14,6 +14,7 @@ TEXT_ATOMS = ["a", "Z", "0", "xy", " ", "  ", "%", "%41", "%zz", "%2", "+", "&",
               "{", "}", "|", "~", "'", "$", "-", "_", ".", "é", "中文", "\U0001F600", "é", " ", "\u0085", "\x7f", "\x00", "\x1f", "true", "/"]
 QUERY_ONLY = ["?", "#", "//"]
 UNSAFE = ["\t", "\n", "\r", "\r\n"]
+FORM_ATOMS = ["a", "Z", "0", "xy", " ", "%", "+", ";", ":", ",", "!", "é", "中文", "\U0001F600", "naïve", "-", "_", ".", "&", "="]
 HNAMES = [b"X-A", b"x-lower", b"Accept", b"User-Agent", b"Connection", b"Cookie", b"Cookie", b"X_Under", b"X-1", b"ETag", b"If-None-Match", b"Host", b"accept-encoding",
           b"Content-Type", b"X.Dot", b"x-a", b"AUTHORIZATION"]
 HVALS = [b"1", b"", b" ", b" lead", b"trail ", b"a: b", b"text/html, application/json;q=0.9", b"caf\xe9", b"\xff\x00\x80", b"keep-alive", b"a\tb", b"x" * 200,
@@ -37,9 +38,10 @@ class C14(core.Check):
                  "differential run (built bytes and recovered fields) against the real Requester / Requestant / buildEnviron; independent oracle from the spec")
     level_text = ("Proved for ALL byte strings / lists (unbounded, structural induction): unquote_quote, unquote_plus_quote_plus (+ the form variant), "
                   "qargs_roundtrip (parse_qsl(QUERY_STRING) of the packed query gives back every key/value list, duplicates and empty strings included), "
-                  "packed_field_chars, header_line_roundtrip (every name without ':' and EVERY value), and the composition request_roundtrip_partial: for every "
+                  "packed_field_chars, header_line_roundtrip (every name without ':' and EVERY value), path_query_roundtrip / path_with_query_splits (a query written on the path), and the composition request_roundtrip_partial: for every "
                   "spec satisfying the explicit decidable predicate WF (inhabited by an example) recover(build spec) = view spec — method, path, query list, all "
-                  "header fields on the wire in order, body — with spec_headers_recovered and body_recovered tying the view back to the caller's own fields. "
+                  "header fields on the wire in order, body (raw / JSON / urlencoded / multipart), nothing left unconsumed — with spec_headers_recovered, body_recovered, plain_path_view tying the view back to the caller's own fields, "
+                  "and requests_recovered_in_sequence_partial: any number of WF requests on one connection are recovered one by one, each as if alone (no state carried over). "
                   "_partial because WF excludes the two recorded defects, which are proved to fail on witnesses: repeated_header_keeps_last (F50, C14-K1) and "
                   "path_tab_is_dropped (C14-K2).  The always-safe table, METHODS and the default header values the proofs use are re-extracted on every run; "
                   "the hand-written models (incl. the Lean urllib.parse) are tied to the code and to the stdlib by a seeded differential run of built bytes and recovered fields.")
@@ -48,52 +50,86 @@ class C14(core.Check):
                   "multipart forms and paths that urlsplit would re-split ('?', '#', leading '//') are declined by the model (Exn.unmodelled) and never generated.")
     quick_n = 1200
     thorough_n = 30000
-    rule = ("case = (method in any case, unicode path with reserved / percent-look-alike / non-ASCII characters, query dict with arbitrary string keys and values, "
-            "header list (token names, latin-1 values without CR/LF, incl. repeated names), body raw | JSON data | form fields, explicit Content-Length or not); "
-            "plus direct quote/unquote/parse_qsl cross-checks against urllib.parse.  non-trivial = a reserved or non-ASCII character somewhere in path or query, or >= 2 headers, or a body; "
-            "distinct by request line")
+    rule = ("case = sequence of 1..6 requests sent over ONE server connection (one Requestant, reused; fresh Requester or Requester.rebuild), request stream cut at random points; "
+            "each request = (method in any case, unicode path with reserved / percent-look-alike / non-ASCII characters, optionally a query string written on the path "
+            "('+', escapes in names and values, names colliding with the dict) and a fragment, query dict with arbitrary string keys and values, header list (token names, "
+            "latin-1 values without CR/LF, incl. repeated names), body raw | JSON data | urlencoded form | multipart form (non-ASCII field text), explicit Content-Length or not); "
+            "later requests of a sequence drop headers / body of earlier ones; plus direct quote/unquote/parse_qsl cross-checks against urllib.parse.  "
+            "non-trivial = more than one request, or a reserved / non-ASCII character in path or query, or >= 2 headers, or a body; distinct by request line")
     trusted_base = ["correspondence harness/props/C14.py: compiled model driver vs Requester.build + Requestant + Server.buildEnviron (harness/areas/httpflow.py c14_run)",
                     "translator harness/extract/httpflow.py (urllib.parse._ALWAYS_SAFE, httping.METHODS, default Accept-Encoding / Content-Type values, version string)",
                     "CPython str.encode/bytes.decode (utf-8, latin-1) and json.dumps are not modelled: text crosses as bytes, json.dumps output is a parameter",
                     "urllib.parse.parse_qsl(keep_blank_values=True) as the query decoder of the WSGI side (modelled in Lean, cross-checked on every run)"]
     assumptions = ["strings hold no lone surrogates (they cannot be UTF-8 encoded at all)",
-                   "the path is a path: starts with exactly one '/', no '?' or '#' (Requester re-splits its path argument with urlsplit by design)"]
+                   "the path part starts with exactly one '/'; a query string on the path is name=value parts joined by '&' with valid UTF-8 escapes",
+                   "the multipart boundary is fixed by patching random.randint in the harness process (it is a parameter of the model)"]
 
     def extract(self):
         return xhf.extract()
 
     # ------------------------------------------------------------------ cases
+    # a case is ("seq", [spec, ...], (cuts, gap)) — requests sent one after the other over ONE server connection — or a
+    # stdlib cross-check (kind, bytes).   spec = (method, path, qargs, headers, bkind, bval, explicit_cl, fresh)
     def corpus(self):
         u = lambda s: s.encode("utf-8")
+        one = lambda *sp: ("seq", [sp + (True,)], ([], 1))
         return [
-            ("req", b"get", u("/a b/ü"), [(u("k 1"), u("v&=1")), (u("a&b=c"), u("x"))], [(b"x-one", b"1")], 0, b"", False),     # F19 witness (reserved chars in keys)
-            ("req", b"POST", u("/p"), [(u("ké"), u("v"))], [], 0, b"hello\r\n\r\nworld", True),                              # F19 witness (non-ASCII key -> idna)
-            ("req", b"POST", u("/p"), [], [(b"x-one", b"1"), (b"X-ONE", b"2")], 0, b"", False),                                    # F50 witness
-            ("req", b"PUT", u("/p\tq\n"), [], [(b"a-b", b" v "), (b"a_b", b"")], 1, b'{"a":[1,"x"]}', False),                      # C14-K2 witness
-            ("req", b"POST", u("/p"), [], [], 2, [(u("a b"), u("c d")), (u("e"), u(""))], False),
-            ("req", b"GET", u("/"), [(b"", b"")], [], 0, b"dropped", False),
-            ("req", b"delete", u("/%41%zz%/+&=;"), [(u("="), u("&")), (u("+"), u(" ")), (u("%"), u("%25"))], [(b"Host", b"other:1")], 0, b"\x00\xff", True),
-            ("req", b"Options", u("/\U0001F600/ x"), [(u("中"), u("文"))] * 1, [(b"accept-encoding", b"gzip")], 0, b"", True),
+            one(b"get", u("/a b/ü"), [(u("k 1"), u("v&=1")), (u("a&b=c"), u("x"))], [(b"x-one", b"1")], 0, b"", False),     # F19 witness (reserved chars in keys)
+            one(b"POST", u("/p"), [(u("ké"), u("v"))], [], 0, b"hello\r\n\r\nworld", True),                              # F19 witness (non-ASCII key -> idna)
+            one(b"POST", u("/p"), [], [(b"x-one", b"1"), (b"X-ONE", b"2")], 0, b"", False),                                    # F50 witness
+            one(b"PUT", u("/p\tq\n"), [], [(b"a-b", b" v "), (b"a_b", b"")], 1, b'{"a":[1,"x"]}', False),                      # C14-K2 witness
+            one(b"POST", u("/p"), [], [], 2, [(u("a b"), u("c d")), (u("e"), u(""))], False),
+            one(b"GET", u("/"), [(b"", b"")], [], 0, b"dropped", False),
+            one(b"delete", u("/%41%zz%/+&=;"), [(u("="), u("&")), (u("+"), u(" ")), (u("%"), u("%25"))], [(b"Host", b"other:1")], 0, b"\x00\xff", True),
+            one(b"Options", u("/\U0001F600/ x"), [(u("中"), u("文"))] * 1, [(b"accept-encoding", b"gzip")], 0, b"", True),
+            # multipart form with non-ASCII names and values, no explicit Content-Length
+            one(b"POST", u("/up"), [], [(b"Content-Type", b"multipart/form-data")], 2, [(u("naïve"), u("valeur é 中")), (u("b"), u(""))], False),
+            # query given on the path: '+', escapes in names and values, merged with / overriding the dict, fragment dropped
+            one(b"GET", u("/x?q=hello+world&a%26b=1"), [], [], 0, b"", False),
+            one(b"GET", u("/x?q=new+v&n%C3%A9w=%E4%B8%AD#frag"), [(u("q"), u("old")), (u("z"), u("1"))], [], 0, b"", False),
+            # several requests through one connection: header sets differ, POST with body then bodyless requests
+            ("seq", [(b"POST", u("/1"), [], [(b"X-Token", b"s3cret"), (b"Content-Type", b"text/x")], 0, b"body-one", False, True),
+                     (b"GET", u("/2"), [(u("a"), u("b"))], [], 0, b"", False, False),
+                     (b"POST", u("/3"), [], [(b"X-Other", b"o")], 0, b"", False, True),
+                     (b"PUT", u("/4"), [], [], 1, b'{"k":"v"}', False, False)], ([], 1)),
+            ("seq", [(b"POST", u("/a"), [], [], 2, [(u("f"), u("é"))], False, True), (b"DELETE", u("/b"), [], [(b"X-A", b"1")], 0, b"", False, True),
+                     (b"GET", u("/c?x=1"), [], [], 0, b"", False, False)], ([40, 90, 200], 2)),
             ("quote", u("a b/é%+~")), ("unquote", b"%41%zz%%4a%4"), ("unquote_plus", b"a+b%2Bc%"), ("parse_qsl", b"a=1&&b&=c&d=%26+x&=&&"), ("parse_qsl", b""),
         ]
 
     def exhaustive(self, tier):
         if tier != "thorough":
             return [], None
+        from urllib.parse import quote_plus
         cs = []
+        one = lambda *sp: ("seq", [sp + (True,)], ([], 1))
         for cp in range(0, 0x300):
             ch = chr(cp)
             if ch in "\t\r\n":
                 continue
             b = ch.encode("utf-8")
-            cs.append(("req", b"GET", b"/a" + (b if ch not in "?#" else b"") + b"z", [(b, b"v" + b), (b"k" + b + b"k", b)], [], 0, b"", False))
+            cs.append(one(b"GET", b"/a" + (b if ch not in "?#" else b"") + b"z", [(b, b"v" + b), (b"k" + b + b"k", b)], [], 0, b"", False))
+            # the same character in a query string written on the path, and in a multipart form field
+            cs.append(one(b"GET", b"/p?" + quote_plus("n" + ch).encode() + b"=" + quote_plus(ch + "v").encode(), [(b"z", b"1")], [], 0, b"", False))
+            if ch not in '"' and cp >= 32:
+                cs.append(one(b"POST", b"/f", [], [(b"Content-Type", b"multipart/form-data")], 2, [(b"n", b"v" + b), (b"m" + (b if cp > 127 else b""), b)], False))
         for x in range(32, 256):
             if x not in (10, 13):
-                cs.append(("req", b"POST", b"/h", [], [(b"X-V", bytes([x])), (b"X-W", b"a" + bytes([x]) + b"b")], 0, bytes([x]), False))
+                cs.append(one(b"POST", b"/h", [], [(b"X-V", bytes([x])), (b"X-W", b"a" + bytes([x]) + b"b")], 0, bytes([x]), False))
         for x in range(256):
             cs.append(("quote", bytes([x, 65, x])))
             cs.append(("quote_plus", bytes([x, 32, x])))
-        return cs, "every code point < U+0300 as path character, query key and query value; every byte 32..255 (except CR LF) as header value and body; quote/quote_plus of every byte"
+        # every ordered pair of request shapes on one connection
+        shapes = [(b"GET", b"/g", [], [], 0, b"", False), (b"POST", b"/b", [], [(b"X-Token", b"t")], 0, b"body", False),
+                  (b"POST", b"/e", [], [(b"X-Other", b"o")], 0, b"", False), (b"PUT", b"/j", [], [], 1, b'{"a":"\\u00e9"}', False),
+                  (b"POST", b"/f", [], [], 2, [(b"k", "é".encode())], False), (b"POST", b"/m", [], [(b"Content-Type", b"multipart/form-data")], 2, [("é".encode(), b"v")], False),
+                  (b"DELETE", b"/x", [], [(b"X-Token", b"u"), (b"Accept", b"*/*")], 0, b"zz", True)]
+        for a in shapes:
+            for b in shapes:
+                for fresh in (True, False):
+                    cs.append(("seq", [a + (True,), b + (fresh,)], ([], 1)))
+        return cs, ("every code point < U+0300 as path character, dict query key/value, path-borne query name/value and multipart field text; every byte 32..255 "
+                    "(except CR LF) as header value and body; quote/quote_plus of every byte; every ordered pair of 7 request shapes on one connection (fresh / rebuilt Requester)")
 
     def _text(self, rng, n, atoms):
         return "".join(rng.choice(atoms) for _ in range(n))
@@ -106,11 +142,92 @@ class C14(core.Check):
             return [self._json(rng, depth + 1) for _ in range(rng.randrange(0, 4))]
         return {self._text(rng, rng.randrange(0, 3), TEXT_ATOMS): self._json(rng, depth + 1) for _ in range(rng.randrange(0, 4))}
 
+    def _pathquery(self, rng):
+        """a query string as a caller would write it on the path: name=value parts, each side encoded one of the usual ways"""
+        from urllib.parse import quote, quote_plus
+        parts = []
+        for _ in range(rng.choice([1, 1, 2, 3])):
+            sides = []
+            for _ in range(2):
+                t = self._text(rng, rng.choice([0, 1, 1, 2, 3]), [a for a in TEXT_ATOMS if a not in ("\x00",)])
+                enc = rng.choice([quote_plus, lambda x: quote(x, safe=""), lambda x: quote_plus(x).replace("%2C", ",").replace("%3A", ":")])
+                sides.append(enc(t))
+            parts.append(sides[0] + "=" + sides[1])
+        if rng.random() < 0.1:
+            parts.insert(rng.randrange(len(parts) + 1), "")      # 'a=1&&b=2'
+        return "&".join(parts)
+
+    def _spec(self, rng, allow_unsafe):
+        u = lambda s: s.encode("utf-8")
+        m = rng.choice(METHODS)
+        c = rng.random()
+        method = m if c < 0.6 else (m.lower() if c < 0.85 else (m.title() if c < 0.985 else b"BREW"))
+        segs = []
+        for _ in range(rng.choice([0, 1, 1, 2, 3, 5])):
+            atoms = TEXT_ATOMS + (UNSAFE if allow_unsafe and rng.random() < 0.04 else [])
+            segs.append(self._text(rng, rng.choice([1, 1, 2, 3, 6]), [a for a in atoms if a != "/"]) or "s")
+        path = "/" + "/".join(segs)
+        if "".join(c for c in path if c not in "\t\r\n").startswith("//"):
+            path = "/x" + path[1:]
+        if rng.random() < 0.25:
+            path += "?" + self._pathquery(rng)
+            if rng.random() < 0.15:
+                path += "#" + rng.choice(["frag", "a=b", "x?y"])
+        qargs = {}
+        for _ in range(rng.choice([0, 0, 1, 2, 3, 5])):
+            qargs[self._text(rng, rng.choice([0, 1, 1, 2, 4]), TEXT_ATOMS + QUERY_ONLY)] = self._text(rng, rng.choice([0, 1, 1, 2, 4]), TEXT_ATOMS + QUERY_ONLY)
+        if "?" in path and rng.random() < 0.4:      # a name that is also on the path
+            from urllib.parse import parse_qsl
+            pq = parse_qsl(path.split("?", 1)[1].split("#", 1)[0], keep_blank_values=True)
+            if pq:
+                qargs[rng.choice(pq)[0]] = "from-dict"
+        headers = []
+        for _ in range(rng.choice([0, 0, 1, 2, 3, 5, 8])):
+            if rng.random() < 0.5:
+                name = rng.choice(HNAMES)
+            else:
+                name = "".join(rng.choice(TOKEN) for _ in range(rng.choice([1, 2, 5, 12]))).encode("ascii")
+            if name.lower().decode() in SPECIAL:
+                continue
+            v = rng.choice(HVALS) if rng.random() < 0.6 else bytes(rng.choice([rng.randrange(32, 256), rng.randrange(32, 127), 9]) for _ in range(rng.randrange(0, 12)))
+            v = bytes(x for x in v if x not in (10, 13))
+            if b"close" in v.lower():
+                continue
+            headers.append((name, v))
+        if rng.random() < 0.9:      # mostly no repeated names (C14-K1)
+            seen = set()
+            headers = [h for h in headers if not (h[0].lower() in seen or seen.add(h[0].lower()))]
+        b = rng.random()
+        explicit = False
+        if b < 0.5:
+            bkind = 0
+            c = rng.random()
+            bval = b"" if c < 0.3 else (rng.choice([b"\r\n\r\n", b"GET / HTTP/1.1\r\n\r\n", b"0\r\n\r\n", b"a=b&c=d", u("caf\u00e9 \u4e2d")]) if c < 0.45
+                                       else bytes(rng.randrange(256) for _ in range(rng.choice([1, 2, 10, 100, 300]))))
+            explicit = rng.random() < 0.4 and method.upper() != b"GET"
+        elif b < 0.72:
+            bkind = 1
+            data = self._json(rng)
+            if data is None:           # data=None means "no JSON data" to Requester
+                data = {}
+            bval = json.dumps(data, separators=(",", ":")).encode("utf-8")
+            headers = [h for h in headers if h[0].lower() != b"content-type"]
+        else:
+            bkind = 2
+            form = {}
+            for _ in range(rng.choice([0, 1, 2, 4])):
+                form[self._text(rng, rng.choice([1, 2, 3]), FORM_ATOMS)] = self._text(rng, rng.choice([0, 1, 3]), FORM_ATOMS)
+            bval = [(u(a), u(c)) for a, c in form.items()]
+            headers = [h for h in headers if h[0].lower() != b"content-type"]
+            if rng.random() < 0.45:
+                headers.insert(rng.randrange(len(headers) + 1), (rng.choice([b"Content-Type", b"content-type"]), rng.choice([b"multipart/form-data", b"multipart/form-data; boundary=x"])))
+        return (method, u(path), [(u(a), u(c)) for a, c in qargs.items()], headers, bkind, bval, explicit, rng.random() < 0.5)
+
     def generate(self, rng, n, tier):
         u = lambda s: s.encode("utf-8")
         for _ in range(n):
             k = rng.random()
-            if k < 0.12:
+            if k < 0.1:
                 kind = rng.choice(["quote", "quote_plus", "unquote", "unquote_plus", "parse_qsl"])
                 if kind.startswith("quote"):
                     b = bytes(rng.choice([rng.randrange(256), rng.randrange(32, 127)]) for _ in range(rng.randrange(0, 20)))
@@ -118,72 +235,33 @@ class C14(core.Check):
                     b = u(self._text(rng, rng.randrange(0, 10), TEXT_ATOMS + ["%", "%4", "%C3%A9", "&", "=", "+", "&&", "=="]))
                 yield (kind, b)
                 continue
-            m = rng.choice(METHODS)
-            c = rng.random()
-            method = m if c < 0.6 else (m.lower() if c < 0.85 else (m.title() if c < 0.97 else b"BREW"))
-            segs = []
-            for _ in range(rng.choice([0, 1, 1, 2, 3, 5])):
-                atoms = TEXT_ATOMS + (UNSAFE if rng.random() < 0.04 else [])
-                segs.append(self._text(rng, rng.choice([1, 1, 2, 3, 6]), [a for a in atoms if a != "/"]) or "s")
-            path = "/" + "/".join(segs)
-            if "".join(c for c in path if c not in "\t\r\n").startswith("//"):
-                path = "/x" + path[1:]
-            qargs = {}
-            for _ in range(rng.choice([0, 0, 1, 2, 3, 5])):
-                qargs[self._text(rng, rng.choice([0, 1, 1, 2, 4]), TEXT_ATOMS + QUERY_ONLY)] = self._text(rng, rng.choice([0, 1, 1, 2, 4]), TEXT_ATOMS + QUERY_ONLY)
-            headers = []
-            for _ in range(rng.choice([0, 0, 1, 2, 3, 5, 8])):
-                if rng.random() < 0.5:
-                    name = rng.choice(HNAMES)
-                else:
-                    name = "".join(rng.choice(TOKEN) for _ in range(rng.choice([1, 2, 5, 12]))).encode("ascii")
-                if name.lower().decode() in SPECIAL:
-                    continue
-                v = rng.choice(HVALS) if rng.random() < 0.6 else bytes(rng.choice([rng.randrange(32, 256), rng.randrange(32, 127), 9]) for _ in range(rng.randrange(0, 12)))
-                v = bytes(x for x in v if x not in (10, 13))
-                headers.append((name, v))
-            if rng.random() < 0.9:      # mostly no repeated names (C14-K1)
-                seen = set()
-                headers = [h for h in headers if not (h[0].lower() in seen or seen.add(h[0].lower()))]
-            b = rng.random()
-            explicit = False
-            if b < 0.55:
-                bkind = 0
-                c = rng.random()
-                bval = b"" if c < 0.3 else (rng.choice([b"\r\n\r\n", b"GET / HTTP/1.1\r\n\r\n", b"0\r\n\r\n", b"a=b&c=d"]) if c < 0.45
-                                           else bytes(rng.randrange(256) for _ in range(rng.choice([1, 2, 10, 100, 300]))))
-                explicit = rng.random() < 0.4 and method.upper() != b"GET"
-            elif b < 0.8:
-                bkind = 1
-                data = self._json(rng)
-                if data is None:           # data=None means "no JSON data" to Requester
-                    data = {}
-                bval = json.dumps(data, separators=(",", ":")).encode("utf-8")
-                headers = [h for h in headers if h[0].lower() != b"content-type"]
-            else:
-                bkind = 2
-                form = {}
-                for _ in range(rng.choice([0, 1, 2, 4])):
-                    form[self._text(rng, rng.choice([1, 2, 3]), TEXT_ATOMS)] = self._text(rng, rng.choice([0, 1, 3]), TEXT_ATOMS)
-                bval = [(u(a), u(c)) for a, c in form.items()]
-                headers = [h for h in headers if h[0].lower() != b"content-type"]
-            yield ("req", method, u(path), [(u(a), u(c)) for a, c in qargs.items()], headers, bkind, bval, explicit)
+            m = rng.choice([1, 1, 1, 2, 2, 3, 4, 6])
+            specs = [self._spec(rng, allow_unsafe=(m == 1)) for _ in range(m)]
+            if m > 1 and rng.random() < 0.5:
+                # later requests carry FEWER / other header fields and no body after one with a body
+                i = rng.randrange(1, m)
+                sp = specs[i]
+                specs[i] = (rng.choice([b"GET", b"POST", b"DELETE"]), sp[1], sp[2], sp[3][:rng.choice([0, 0, 1])], 0, b"", False, sp[7])
+            cuts = sorted(rng.randrange(0, 400 * m) for _ in range(rng.choice([0, 0, 1, 3, 6])))
+            yield ("seq", specs, (cuts, rng.choice([1, 1, 2, 3])))
 
     def request(self, case):
-        if case[0] != "req":
+        if case[0] != "seq":
             return (case[0], case[1])
-        _, method, path, qargs, headers, bkind, bval, explicit = case
-        hs = list(headers)
-        if bkind == 0 and explicit:
-            hs.append((b"Content-Length", str(len(bval)).encode()))
-        raw = bval if bkind in (0, 1) else b""
-        form = bval if bkind == 2 else []
-        return ("c14", method, path, [(k, v) for k, v in qargs], [(n, v) for n, v in hs], bkind, raw, [(k, v) for k, v in form], HOST)
+        out = []
+        for method, path, qargs, headers, bkind, bval, explicit, fresh in case[1]:
+            hs = list(headers)
+            if bkind == 0 and explicit:
+                hs.append((b"Content-Length", str(len(bval)).encode()))
+            raw = bval if bkind in (0, 1) else b""
+            form = bval if bkind == 2 else []
+            out.append((method, path, [(k, v) for k, v in qargs], [(n, v) for n, v in hs], bkind, raw, [(k, v) for k, v in form], HOST, hf.C14_BOUNDARY))
+        return ("c14", out)
 
     # ------------------------------------------------------------------ real code
     def run_impl(self, case):
         import urllib.parse as up
-        if case[0] != "req":
+        if case[0] != "seq":
             kind, b = case
             if kind == "quote":
                 return (up.quote_from_bytes(b).encode("ascii"),)
@@ -198,91 +276,131 @@ class C14(core.Check):
                 return ([(k.encode("latin-1"), v.encode("latin-1"))
                          for k, v in up.parse_qsl(b.decode("latin-1"), keep_blank_values=True, encoding="latin-1")],)
             raise core.Infra("bad case")
-        o = hf.c14_run(case[1:])
-        if isinstance(o["built"], tuple):
-            return (("raise", o["built"][1]), None)
-        if o["state"][0] != "ok":
-            return (o["built"], ("error", o["state"][1]), None)
-        view = ("ok", o["method"].encode("latin-1"), o["path"].encode("utf-8", "surrogatepass"),
-                [(k.encode("utf-8", "surrogatepass"), v.encode("utf-8", "surrogatepass")) for k, v in o["query"]],
-                [(k.encode("latin-1"), v.encode("latin-1")) for k, v in o["headers"]], o["body"])
-        extra = ("x", [(k.encode("latin-1"), v.encode("latin-1")) for k, v in sorted(o["env"].items())], o["env_method"].encode("latin-1"),
-                 o["env_path"].encode("utf-8", "surrogatepass"), o["env_body"], o["leftover"])
-        return (o["built"], view, extra)
+        o = hf.c14_seq_run(case[1], case[2])
+        sp = "surrogatepass"
+        builts = [b if isinstance(b, bytes) else ("raise", "unmodelled") for b in o["builts"]]
+        views, extras = [], []
+        for v in o["views"]:
+            views.append(("ok", v["method"].encode("latin-1"), v["path"].encode("utf-8", sp),
+                          [(k.encode("utf-8", sp), w.encode("utf-8", sp)) for k, w in v["query"]],
+                          [(k.encode("latin-1"), w.encode("latin-1")) for k, w in v["headers"]], v["body"]))
+            extras.append(([(k.encode("latin-1"), w.encode("latin-1")) for k, w in sorted(v["env"].items())], v["env_method"].encode("latin-1"),
+                           v["env_path"].encode("utf-8", sp), v["env_body"]))
+        if o["raised"]:
+            views.append(("error", o["raised"]))
+        elif len(o["views"]) < o["n_sent"]:
+            views.append(("error", "HTTPException" if o["closed"] else "incomplete"))
+        return (builts, views, ("x", extras, o["leftover"], o["closed"]))
 
     def compare_view(self, case, obs):
-        if case[0] != "req":
+        if case[0] != "seq":
             v = obs[0]
             return sx.dumps(v if isinstance(v, bytes) else [(k, w) for k, w in v])
-        if len(obs) == 2:
-            return sx.dumps(("raise", "unmodelled"))         # the model declines what makes build() raise (never inside the quantifier)
         return sx.dumps(obs[:2])
 
     # ------------------------------------------------------------------ the property
-    def wf(self, case):
-        _, method, path, qargs, headers, bkind, bval, explicit = case
+    def _split_path(self, path):
+        """(path proper, query string on the path | None) of what the caller passed as path"""
+        p = path.split("#", 1)[0]
+        if "?" in p:
+            a, b = p.split("?", 1)
+            return a, b
+        return p, None
+
+    def wf(self, spec):
+        method, path, qargs, headers, bkind, bval, explicit, fresh = spec
         if method.upper() not in METHODS:
             return False
         try:
-            p = path.decode("utf-8")
+            full = path.decode("utf-8")
         except UnicodeDecodeError:
             return False
-        if not p.startswith("/") or p.startswith("//") or "?" in p or "#" in p:
+        p, pq = self._split_path(full)
+        if not p.startswith("/") or p.startswith("//"):
             return False
+        if pq is not None:
+            if ";" in pq or any(part and "=" not in part for part in pq.split("&")):
+                return False
+            try:
+                for part in pq.split("&"):
+                    unquote(part.replace("+", " "), errors="strict")
+            except UnicodeDecodeError:
+                return False
         if len({k for k, _ in qargs}) != len(qargs):
             return False
         for n, v in headers:
             if not hf.token_ok(n.decode("latin-1")) or b"\r" in v or b"\n" in v or n.lower().decode() in SPECIAL:
                 return False
-            if bkind in (1, 2) and n.lower() == b"content-type":
+            if n.lower() == b"content-type" and (bkind == 1 or (bkind == 2 and not v.startswith(b"multipart/form-data"))):
                 return False
         if method.upper() == b"GET" and explicit and bval:
             return False
         return True
 
-    def oracle(self, case, obs):
-        import urllib.parse as up
-        if case[0] != "req":
-            kind, b = case
-            bad = []
-            if kind == "quote" and up.unquote_to_bytes(obs[0]) != b:
-                bad.append("stdlib-unquote-quote")
-            return bad
-        if not self.wf(case):
-            return []
-        _, method, path, qargs, headers, bkind, bval, explicit = case
-        if isinstance(obs[0], tuple):
-            return ["build-raised"]
-        if obs[1][0] != "ok":
-            return ["server-rejected-request"]
-        _, rmethod, rpath, rquery, rheaders, rbody = obs[1]
-        xe = obs[2]
-        x = dict(env={k.decode("latin-1"): v.decode("latin-1") for k, v in xe[1]}, env_method=xe[2].decode("latin-1"),
-                 env_path=xe[3].decode("utf-8", "surrogatepass"), env_body=xe[4], leftover=xe[5])
+    def _expect_query(self, spec):
+        method, path, qargs, headers, bkind, bval, explicit, fresh = spec
+        exp = dict((k.decode("utf-8"), v.decode("utf-8")) for k, v in qargs)
+        p, pq = self._split_path(path.decode("utf-8"))
+        if pq:
+            for k, v in parse_qsl(pq, keep_blank_values=True):
+                exp[k] = v
+        return [(k.encode("utf-8"), v.encode("utf-8")) for k, v in exp.items()]
+
+    def _multipart(self, spec):
+        method, path, qargs, headers, bkind, bval, explicit, fresh = spec
+        return bkind == 2 and method.upper() != b"GET" and any(n.lower() == b"content-type" and v.startswith(b"multipart/form-data") for n, v in headers)
+
+    def _clauses_one(self, spec, built, view, extra):
+        """violated clauses for ONE request of the sequence"""
+        import email
+        import email.policy
+        method, path, qargs, headers, bkind, bval, explicit, fresh = spec
+        _, rmethod, rpath, rquery, rheaders, rbody = view
+        env_items, env_method, env_path, env_body = extra
+        env = {k.decode("latin-1"): v.decode("latin-1") for k, v in env_items}
         bad = []
-        if rmethod != method.upper() or x["env_method"].encode("latin-1") != method.upper():
+        if rmethod != method.upper() or env_method != method.upper():
             bad.append("method")
-        if rpath != path or x["env_path"].encode("utf-8", "surrogatepass") != path:
+        want_path = self._split_path(path.decode("utf-8"))[0].encode("utf-8")
+        if rpath != want_path or env_path != want_path:
             bad.append("path")
-        if rquery != [(k, v) for k, v in qargs]:
+        if rquery != self._expect_query(spec):
             bad.append("query-args")
         hs = list(headers)
+        multipart = self._multipart(spec)
         if bkind == 0 and explicit:
             hs.append((b"Content-Length", str(len(bval)).encode()))
         envkeys = {}
         for n, v in hs:
             envkeys.setdefault("HTTP_" + n.decode("ascii").upper().replace("-", "_"), set()).add(n.lower())
+        is_get = method.upper() == b"GET"
         for n, v in hs:
+            if n.lower() == b"content-type" and multipart:
+                continue                      # replaced by the client (boundary added)
             if (n.lower(), v) not in rheaders:
                 bad.append("header-values")
                 break
             key = "HTTP_" + n.decode("ascii").upper().replace("-", "_")
-            if len(envkeys[key]) == 1 and not _dups(hs).get(n.lower()) and x["env"].get(key) != v.decode("latin-1"):
+            if len(envkeys[key]) == 1 and not _dups(hs).get(n.lower()) and env.get(key) != v.decode("latin-1"):
                 bad.append("environ-header")
                 break
-        is_get = method.upper() == b"GET"
-        if x["env_body"] != rbody or x["leftover"]:
+        # nothing the client did not send: only the caller's fields plus the client's own defaults
+        allowed = {n.lower() for n, _ in hs} | {b"host", b"accept-encoding"}
+        if rbody or (not is_get and ((bkind in (1, 2)) or bval)):
+            allowed |= {b"content-length"}
+        if not is_get and bkind in (1, 2):
+            allowed |= {b"content-type"}
+        if any(k not in allowed for k, _ in rheaders):
+            bad.append("header-not-sent")
+        allowed_env = {"HTTP_" + k.decode("ascii").upper().replace("-", "_") for k in allowed} | {"CONTENT_TYPE", "CONTENT_LENGTH"}
+        if any(k not in allowed_env for k in env):
+            bad.append("environ-header-not-sent")
+        # body: the bytes the client put after its head, and what they mean
+        sent_body = built.split(b"\r\n\r\n", 1)[1] if b"\r\n\r\n" in built else None
+        if env_body != rbody:
             bad.append("body-framing")
+        if sent_body is not None and rbody != sent_body:
+            bad.append("body-bytes")
         if is_get:
             if rbody != b"":
                 bad.append("body")
@@ -291,105 +409,177 @@ class C14(core.Check):
                 bad.append("body")
         elif bkind == 1:
             try:
-                if json.loads(rbody.decode("utf-8")) != json.loads(bval.decode("utf-8")) or not x["env"].get("CONTENT_TYPE", "").startswith("application/json"):
+                if json.loads(rbody.decode("utf-8")) != json.loads(bval.decode("utf-8")) or not env.get("CONTENT_TYPE", "").startswith("application/json"):
                     bad.append("body")
             except ValueError:
+                bad.append("body")
+        elif multipart:
+            ct = env.get("CONTENT_TYPE", "")
+            plain = all(b'"' not in k and b"\r" not in k and b"\n" not in k and hf.C14_BOUNDARY not in k + v and not v.endswith((b"\r", b"\n")) and not v.startswith((b"\r", b"\n"))
+                        for k, v in bval)
+            if not ct.startswith("multipart/form-data; boundary="):
+                bad.append("body")
+            elif plain and all(k.isascii() for k, _ in bval):
+                msg = email.message_from_bytes(b"Content-Type: " + ct.encode("latin-1") + b"\r\n\r\n" + rbody, policy=email.policy.HTTP)
+                got = []
+                if msg.is_multipart():
+                    for part in msg.iter_parts():
+                        got.append((part.get_param("name", header="content-disposition"), part.get_payload(decode=True)))
+                if got != [(k.decode("utf-8"), v) for k, v in bval]:
+                    bad.append("body")
+            elif not rbody.endswith(b"--" + hf.C14_BOUNDARY + b"--") or any(v not in rbody for _, v in bval):
                 bad.append("body")
         else:
             plain = all(b"&" not in k and b"=" not in k and b"&" not in v and b"=" not in v for k, v in bval)
             if plain:
                 got = [(k.encode("utf-8"), v.encode("utf-8")) for k, v in parse_qsl(rbody.decode("ascii", "replace"), keep_blank_values=True)]
-                if got != [(k, v) for k, v in bval] or not x["env"].get("CONTENT_TYPE", "").startswith("application/x-www-form-urlencoded"):
+                if got != [(k, v) for k, v in bval] or not env.get("CONTENT_TYPE", "").startswith("application/x-www-form-urlencoded"):
                     bad.append("body")
-        if rbody and x["env"].get("CONTENT_LENGTH") != str(len(rbody)):
+        if rbody and env.get("CONTENT_LENGTH") != str(len(rbody)):
             bad.append("content-length")
         return bad
 
-    def _k1(self, case, obs):
+    def _clauses(self, case, obs):
+        """[(index of the request, clause)] — judged only while every request so far is inside the quantifier"""
+        specs = case[1]
+        builts, views, (_, extras, leftover, closed) = obs
+        out = []
+        for i, spec in enumerate(specs):
+            if not self.wf(spec):
+                return out
+            if not isinstance(builts[i], bytes):
+                out.append((i, "build-raised"))
+                return out
+            if i >= len(views) or views[i][0] != "ok":
+                out.append((i, "server-rejected-request" if closed or (i < len(views) and views[i][1] != "incomplete") else "request-not-dispatched"))
+                return out
+            out += [(i, c) for c in self._clauses_one(spec, builts[i], views[i], extras[i])]
+        if leftover:
+            out.append((len(specs) - 1, "unconsumed-bytes"))
+        return out
+
+    def oracle(self, case, obs):
+        import urllib.parse as up
+        if case[0] != "seq":
+            kind, b = case
+            bad = []
+            if kind == "quote" and up.unquote_to_bytes(obs[0]) != b:
+                bad.append("stdlib-unquote-quote")
+            return bad
+        seen = []
+        for _, c in self._clauses(case, obs):
+            if c not in seen:
+                seen.append(c)
+        return seen
+
+    def _k1(self, spec, view):
         """every spec header is recovered except the non-last values of repeated names, and each last value IS recovered"""
-        headers = case[4]
+        headers = spec[3]
         d = _dups(headers)
-        if not d or obs[1][0] != "ok":
+        if not d:
             return False
-        rheaders = obs[1][4]
+        rheaders = view[4]
+        mp = self._multipart(spec)
         for n, v in headers:
+            if mp and n.lower() == b"content-type":
+                continue
             if (n.lower(), v) not in rheaders and n.lower() not in d:
                 return False
-        return all((k, vs[-1]) in rheaders for k, vs in d.items())
+        return all((k, vs[-1]) in rheaders for k, vs in d.items() if not (mp and k == b"content-type"))
 
-    def _k2(self, case, obs):
-        path = case[2]
-        if not any(c in path for c in b"\t\r\n") or obs[1][0] != "ok":
+    def _k2(self, spec, view, extra):
+        path = spec[1]
+        if not any(c in path for c in b"\t\r\n"):
             return False
         stripped = bytes(c for c in path if c not in b"\t\r\n")
-        return obs[1][2] == stripped and obs[2][3] == stripped
+        stripped = self._split_path(stripped.decode("utf-8", "replace"))[0].encode("utf-8")
+        return view[2] == stripped and extra[2] == stripped
 
     def known(self, case, obs, clauses):
-        if case[0] != "req" or isinstance(obs[0], tuple):
+        if case[0] != "seq":
             return None
-        path = case[2]
-        if clauses == ["server-rejected-request"]:
-            # C14-K2, other face: what is left of the path starts with '//' and is re-read by urlsplit as an (empty) network location
-            stripped = bytes(c for c in path if c not in b"\t\r\n")
-            if any(c in path for c in b"\t\r\n") and stripped.startswith(b"//"):
-                return "C14-K2"
-            return None
-        explained = {"header-values": ("C14-K1", self._k1), "path": ("C14-K2", self._k2)}
+        specs = case[1]
+        builts, views, (_, extras, leftover, closed) = obs
         ids = []
-        for c in clauses:
-            if c not in explained or not explained[c][1](case, obs):
+        for i, c in self._clauses(case, obs):
+            spec = specs[i]
+            if c == "header-values" and self._k1(spec, views[i]):
+                ids.append("C14-K1")
+            elif c == "path" and self._k2(spec, views[i], extras[i]):
+                ids.append("C14-K2")
+            elif c == "server-rejected-request" and any(ch in spec[1] for ch in b"\t\r\n") and \
+                    bytes(ch for ch in spec[1] if ch not in b"\t\r\n").startswith(b"//"):
+                ids.append("C14-K2")     # other face: what is left starts with '//' and is re-read by urlsplit as an (empty) network location
+            else:
                 return None
-            ids.append(explained[c][0])
         return ids[0] if ids else None
 
     def nontrivial(self, case, obs):
-        if case[0] != "req":
+        if case[0] != "seq":
             return len(case[1]) > 0
-        _, method, path, qargs, headers, bkind, bval, explicit = case
         odd = lambda b: any(not (chr(c).isalnum() or c in b"/_.-~") for c in b)
-        return odd(path) or any(odd(k) or odd(v) for k, v in qargs) or len(headers) >= 2 or bool(bval)
+        return len(case[1]) > 1 or any(odd(sp[1]) or any(odd(k) or odd(v) for k, v in sp[2]) or len(sp[3]) >= 2 or bool(sp[5]) for sp in case[1])
 
     def features(self, case, obs):
-        if case[0] != "req":
+        if case[0] != "seq":
             return ["stdlib:" + case[0]]
-        _, method, path, qargs, headers, bkind, bval, explicit = case
-        f = ["req", "wf" if self.wf(case) else "outside-quantifier", "method:" + method.upper().decode("latin-1"),
-             "body:" + ["raw", "json", "form"][bkind] + (":explicit-cl" if explicit else ""), f"qargs={min(len(qargs), 4)}", f"headers={min(len(headers), 6)}"]
-        if any(c > 127 for c in path):
-            f.append("path:non-ascii")
-        if any(c in path for c in b"%+&=; "):
-            f.append("path:reserved")
-        if any(any(c in k for c in b"&=+%#? ") for k, _ in qargs):
-            f.append("qkey:reserved")
-        if any(any(c > 127 for c in k) for k, _ in qargs):
-            f.append("qkey:non-ascii")
-        if _dups(headers):
-            f.append("header:repeated")
-        if len(obs) >= 2 and obs[1] and obs[1][0] != "ok":
-            f.append("server:" + str(obs[1][1]))
+        f = [f"seq={min(len(case[1]), 6)}", "fragmented" if case[2][0] else "whole"]
+        for i, sp in enumerate(case[1]):
+            method, path, qargs, headers, bkind, bval, explicit, fresh = sp
+            f += ["req", "wf" if self.wf(sp) else "outside-quantifier", "method:" + method.upper().decode("latin-1"),
+                  "body:" + (["raw", "json", "form"][bkind] if not self._multipart(sp) else "multipart") + (":explicit-cl" if explicit else ""),
+                  f"qargs={min(len(qargs), 4)}", f"headers={min(len(headers), 6)}", "requester:" + ("fresh" if fresh or i == 0 else "rebuild")]
+            if b"?" in path:
+                f.append("path:with-query")
+                if any(k in dict(self._expect_query(sp)) for k, _ in qargs):
+                    f.append("path-query:merged-with-dict")
+            if any(c > 127 for c in path):
+                f.append("path:non-ascii")
+            if any(any(c in k for c in b"&=+%#? ") for k, _ in qargs):
+                f.append("qkey:reserved")
+            if bkind in (1, 2) and any(c > 127 for c in (bval if bkind == 1 else b"".join(k + v for k, v in bval))):
+                f.append("body:non-ascii-text")
+            if _dups(headers):
+                f.append("header:repeated")
+            if i > 0:
+                prev = case[1][i - 1]
+                if {n.lower() for n, _ in prev[3]} - {n.lower() for n, _ in headers}:
+                    f.append("seq:drops-a-header-of-previous")
+                if prev[5] and prev[0].upper() != b"GET" and not (bval and method.upper() != b"GET"):
+                    f.append("seq:bodyless-after-body")
+        if obs[1] and obs[1][-1][0] != "ok":
+            f.append("server:" + str(obs[1][-1][1]))
         return f
 
-    def shrink(self, case):
-        if case[0] != "req":
-            b = case[1]
-            for i in range(len(b)):
-                yield (case[0], b[:i] + b[i + 1:])
-            return
-        _, method, path, qargs, headers, bkind, bval, explicit = case
-        mk = lambda **kw: ("req", kw.get("method", method), kw.get("path", path), kw.get("qargs", qargs), kw.get("headers", headers),
-                           kw.get("bkind", bkind), kw.get("bval", bval), kw.get("explicit", explicit))
+    def _shrink_spec(self, sp):
+        method, path, qargs, headers, bkind, bval, explicit, fresh = sp
+        mk = lambda **kw: (kw.get("method", method), kw.get("path", path), kw.get("qargs", qargs), kw.get("headers", headers),
+                           kw.get("bkind", bkind), kw.get("bval", bval), kw.get("explicit", explicit), fresh)
         for i in range(len(headers)):
             yield mk(headers=headers[:i] + headers[i + 1:])
         for i in range(len(qargs)):
             yield mk(qargs=qargs[:i] + qargs[i + 1:])
+        if bkind == 2 and len(bval) > 1:
+            for i in range(len(bval)):
+                yield mk(bval=bval[:i] + bval[i + 1:])
         if bkind != 0 or bval or explicit:
             yield mk(bkind=0, bval=b"", explicit=False)
         try:
             p = path.decode("utf-8")
-            for i in range(1, len(p)):
-                q = p[:i] + p[i + 1:]
-                if q.startswith("/") and not q.startswith("//"):
-                    yield mk(path=q.encode("utf-8"))
+            if "#" in p:
+                yield mk(path=p.split("#", 1)[0].encode("utf-8"))
+            if "?" in p:
+                a, b = p.split("#", 1)[0].split("?", 1)
+                yield mk(path=a.encode("utf-8"))
+                parts = b.split("&")
+                for i in range(len(parts)):
+                    if len(parts) > 1:
+                        yield mk(path=(a + "?" + "&".join(parts[:i] + parts[i + 1:])).encode("utf-8"))
+            else:
+                for i in range(1, len(p)):
+                    q = p[:i] + p[i + 1:]
+                    if q.startswith("/") and not q.startswith("//"):
+                        yield mk(path=q.encode("utf-8"))
         except UnicodeDecodeError:
             pass
         for i, (k, v) in enumerate(qargs):
@@ -401,11 +591,27 @@ class C14(core.Check):
                 if (k2, v2) != (k, v) and k2 not in [a for j, (a, _) in enumerate(qargs) if j != i]:
                     yield mk(qargs=qargs[:i] + [(k2, v2)] + qargs[i + 1:])
         for i, (n, v) in enumerate(headers):
-            if v:
+            if v and not (n.lower() == b"content-type" and bkind == 2):
                 yield mk(headers=headers[:i] + [(n, v[:-1])] + headers[i + 1:])
 
+    def shrink(self, case):
+        if case[0] != "seq":
+            b = case[1]
+            for i in range(len(b)):
+                yield (case[0], b[:i] + b[i + 1:])
+            return
+        specs, sched = case[1], case[2]
+        if sched != ([], 1):
+            yield ("seq", specs, ([], 1))
+        if len(specs) > 1:
+            for i in range(len(specs)):
+                yield ("seq", specs[:i] + specs[i + 1:], sched)
+        for i, sp in enumerate(specs):
+            for sp2 in self._shrink_spec(sp):
+                yield ("seq", specs[:i] + [sp2] + specs[i + 1:], sched)
+
     def mutate(self, rng, case):
-        return list(self.shrink(case))[:40]
+        return list(self.shrink(case))[:60]
 
 
 CHECK = C14()
